@@ -80,6 +80,7 @@ func registerModels(e *Engine) {
 	registerCrypto(e)
 	registerMisc(e)
 	registerMore(e)
+	registerBig(e)
 }
 
 // ---------- verifrt intrinsics ----------
@@ -192,6 +193,10 @@ func registerRT(e *Engine) {
 	})
 	e.reg(rtPkg+".Env", func(ex *Exec, fn *ssa.Function, args []Value) (Value, *PanicV) {
 		ex.st["env"] = args[0]
+		return nil, nil
+	})
+	e.reg(rtPkg+".Block", func(ex *Exec, fn *ssa.Function, args []Value) (Value, *PanicV) {
+		ex.blocked(ex.argString(args[0]))
 		return nil, nil
 	})
 	e.reg(rtPkg+".Exit", func(ex *Exec, fn *ssa.Function, args []Value) (Value, *PanicV) {
